@@ -167,6 +167,24 @@ def len (e : DynEnum) : Except EnumErr Nat :=
   | .ok ms => .ok ms.length
   | .error err => .error err
 
+/-- `list(reversed(cls))`: `DynamicEnumMeta.__reversed__` filters names with the prefix out of
+`EnumType.__reversed__` (the members behind `reversed(_member_names_)`). -/
+def reversedIter (e : DynEnum) : Except EnumErr (List EnumMember) :=
+  match membersOf e.map e.names.reverse with
+  | .ok ms => .ok (ms.filter fun m => !m.isUnrecognized)
+  | .error err => .error err
+
+/-- `value in cls` for an `int` (`DynamicEnumMeta.__contains__` on top of `EnumType.__contains__`, CPython 3.12):
+the value must be a key of `_value2member_map_` and the member found there must not carry the hidden prefix. -/
+def containsValue (e : DynEnum) (v : Int) : Bool :=
+  match dget v e.v2m with
+  | some m => !m.isUnrecognized
+  | none => false
+
+/-- `member in cls` for a member object of the class (`isinstance(value, cls)` holds): its name must not carry the
+hidden prefix. -/
+def containsMember (_e : DynEnum) (m : EnumMember) : Bool := !m.isUnrecognized
+
 /-- `min(xs)` of a non-empty list. -/
 def minOf (x : Int) (xs : List Int) : Int := xs.foldl min x
 
@@ -278,6 +296,20 @@ def namesDistinct : List Name → Bool
 /-- What the theorems need of a class body: at least one member, distinct names, no name with the hidden prefix. -/
 def enumOk (d : List (Name × Int)) : Bool :=
   !d.isEmpty && namesDistinct (d.map (·.1)) && d.all fun p => !startsWith p.1 unrecognizedPrefix
+
+/-- Canonical members of a class body given in reverse: a line whose value already occurred earlier is an alias. -/
+def canonRev : List (Name × Int) → List EnumMember
+  | [] => []
+  | p :: t => if p.2 ∈ t.map (·.2) then canonRev t else canonRev t ++ [⟨p.1, p.2⟩]
+
+/-- The members of the enumeration a class body defines (what `list(E)` has to show): the first line of every
+value, in order.  The later lines of a repeated value are alias NAMES of that member, not members. -/
+def canonicalMembers (d : List (Name × Int)) : List EnumMember := canonRev d.reverse
+
+/-- The translator's reading of the interpreter's table (`members` = first name of every distinct value, in
+declaration order) is the canonical member list of the body: decided per class on the generated tables. -/
+def membersAre (d : List (Name × Int)) (members : List (Name × Int)) : Bool :=
+  (canonicalMembers d).map (fun m => (m.name, m.value)) == members
 
 structure PyEnum where
   qualname : String
